@@ -79,4 +79,11 @@ var plans = map[string]*plan{
 		Real:   realB, Stub: stubB,
 		Assume: []string{"include/exclude patterns are limited to three simple forms whose meaning the harness computes itself", "a deleted working-tree file being recreated is not judged", "reference stores (alternates) are not covered by this check"},
 	},
+	"C13": {
+		ID: "C13", Engine: "B", Level: "fault_enumeration",
+		Stages: []stage{{"C13", 200, 4000}},
+		Rule:   "per scenario (tape): a history with all objects local (writes, deletes, branches, tags; fixed tracking attributes), 0-2 tracked paths committed as raw content or as a non-canonical pointer (hash-object/update-index, bypassing the filter), a revision argument (none / HEAD / A..HEAD) and a mode (--objects / --pointers / both, --dry-run or not). Faults = damage to stored bytes: for histories with <= 6 referenced objects EVERY subset of them is damaged in turn (one damage kind per member drawn from delete / truncate / extend / bit flip / replace by another object), the store being restored from a pristine copy in between; larger histories get 24 sampled subsets. One evaluation = one scenario; crash_points_executed counts fsck runs (damage configurations). Non-trivial: every scenario; distinct = distinct choice trace + outcomes.",
+		Real:   realB, Stub: []string{"no server involved; stored bytes are damaged by the harness"},
+		Assume: []string{"ground truth about referenced pointers from git rev-list / ls-files / cat-file and the harness's own pointer reader", "lfs.fetchexclude is not exercised", "explicit size-0 pointers are not generated (git-lfs never stores the empty object)"},
+	},
 }
